@@ -9,6 +9,8 @@ def check(ctx):
     n_sites, holders = lr.check(rep)
     rep.floor("guard-creating call sites", n_sites, 9)
     rep.floor("functions holding a guard", holders, 6)
+    from rules import determinism
+    determinism.check(ctx, rep)
     rep.analysed["caches"] = lr.maps
     rep.analysed["functions_returning_guard"] = sorted(lr.returns_guard.values())
     E = [b.id for b in prog.bodies.values() if b.file.endswith(("defs/namespace.rs", "defs/reflection.rs")) and b.rec.get("vis") == "Public"]
@@ -20,7 +22,7 @@ def check(ctx):
     return ("R-LOCK over every function that touches the two DashMap caches: K1 no call that can reach an access of map M while a guard of M is "
             "live (variant-aware liveness of Option<Ref>; interprocedural 'touches' sets over the call graph; guards returned by supertypes_of/"
             "inheritance are followed into their callers), K2 lock-order graph acyclic, K3 only get/contains_key/insert are ever invoked on the "
-            "caches (nothing hands out &mut to cached storage, nothing removes), K4 inserted values are moved in, K5 each cache is touched only by its own get-or-compute accessor (no other function can observe cache state, a necessary condition of history independence), K6 no public function returns a type containing a shard guard (a caller holding one across its next query blocks on itself; today two do - known finding F28); %d guard sites in %d functions; "
+            "caches (nothing hands out &mut to cached storage, nothing removes), K4 inserted values are moved in, K5 each cache is touched only by its own get-or-compute accessor (no other function can observe cache state, a necessary condition of history independence), R-DET no position-dependent consumer (find, first, nth, min/max ...) is applied to the iteration of a randomly seeded HashMap / HashSet, K6 no public function returns a type containing a shard guard (a caller holding one across its next query blocks on itself; today two do - known finding F28); %d guard sites in %d functions; "
             "plus R-PANIC over %d bodies reachable from %d public namespace queries. The argument is schedule-independent." % (n_sites, holders, len(reach), len(E)))
 
 
